@@ -32,15 +32,18 @@ Lib == ("T1" :> T1Show) @@ ("Sp" :> SpBody) @@ ("St" :> StarBody)
        @@ ("((" :> Plain(<<Txt(<<"{{">>)>>)) @@ ("))" :> Plain(<<Txt(<<"}}">>)>>))
 Braced == <<Call("((", <<>>), Txt(<<"Sp">>), Call("))", <<>>)>>
 
+\* an otherwise plain value holding a self-closing nowiki tag (atom NWS = "<nowiki />"): the module must
+\* see the expanded text, not an internal placeholder (the harness lets the module report lengths)
+NwsVal == <<Txt(<<"k", "NWS">>)>>
 Values == { Braced, <<Txt(<<"a">>)>>, <<Txt(<<"SP", "b", "SP">>)>>, <<Txt(<<"NL", "c">>)>>, <<Txt(<<"c", "NL">>)>>, <<Call("Sp", <<>>)>>,
             <<Call("T1", <<Pos(<<Txt(<<"i">>)>>)>>)>>, <<Txt(<<"p">>), Call("Sp", <<>>), Txt(<<"q">>)>>,
-            <<Call("NOPE", <<>>)>>, <<Call("St", <<Pos(<<Txt(<<"s">>)>>)>>)>> }
+            <<Call("NOPE", <<>>)>>, <<Call("St", <<Pos(<<Txt(<<"s">>)>>)>>)>>, NwsVal }
 ValuesQ == { Braced, <<Txt(<<"a">>)>>, <<Txt(<<"SP", "b", "SP">>)>>, <<Txt(<<"c", "NL">>)>>, <<Call("Sp", <<>>)>>,
-             <<Call("T1", <<Pos(<<Txt(<<"i">>)>>)>>)>>, <<Call("St", <<Pos(<<Txt(<<"s">>)>>)>>)>> }
+             <<Call("T1", <<Pos(<<Txt(<<"i">>)>>)>>)>>, <<Call("St", <<Pos(<<Txt(<<"s">>)>>)>>)>>, NwsVal }
 Frags == { <<Txt(<<"t">>)>>, <<Call("T1", <<Pos(<<Txt(<<"z">>)>>), Named(<<"x">>, <<Call("Sp", <<>>)>>)>>)>>,
            <<If(<<Call("Sp", <<>>)>>, <<Txt(<<"SP", "y">>)>>, <<Txt(<<"n">>)>>)>>,
            <<Call("NOPE", <<Pos(<<Txt(<<"a">>)>>)>>), Txt(<<"SP">>), Call("St", <<Pos(<<Txt(<<"w">>)>>)>>)>>,
-           <<ParD(<<"u">>, <<Call("T1", <<Pos(<<Txt(<<"q">>)>>)>>)>>)>> }
+           <<ParD(<<"u">>, <<Call("T1", <<Pos(<<Txt(<<"q">>)>>)>>)>>)>>, <<Txt(<<"t", "NWS", "u">>)>> }
 \* plain strings handed to expandTemplate / callParserFunction from Lua
 Strs == { <<"e">>, <<"SP", "g", "SP">>, <<>> }
 
